@@ -190,6 +190,29 @@ def check_instance(name, W, H, rows, bad: Bad, stats):
     if got != facts:
         bad.add("Instance|attributes differ from the constructor input",
                 f"{what}: {got} expected {facts}", rep)
+    # the same instance handed over as an integer array (narrowest type
+    # that holds the entries, int64, and the instance itself): every
+    # "representable object" must come out the same whatever form the
+    # caller used
+    mx = max(max(int(v) for v in r) for r in rows)
+    narrow = next(t for t in (np.int8, np.int16, np.int32, np.int64)
+                  if np.iinfo(t).max >= mx)
+    for src_name, src in (("narrow array", np.array(rows, narrow)),
+                          ("int64 array", np.array(rows, np.int64)),
+                          ("the instance itself", inst)):
+        try:
+            alt = Instance(name, W, H, src)
+        except Exception as e:  # noqa
+            bad.add("Instance|array input refused although the same rows "
+                    "as lists are accepted",
+                    f"{what} as {src_name}: {type(e).__name__}: "
+                    f"{short(e, 120)}", rep)
+            continue
+        for (k, x, y) in compare_views(v0, instance_view(alt)):
+            bad.add(f"Instance|{k} differs when the rows are handed over as "
+                    "an array",
+                    f"{what} as {src_name} ({np.asarray(src).dtype}): {k} is"
+                    f" {short(y, 100)}, from lists {short(x, 100)}", rep)
     text = inst.to_compact_str()
     exp = R.compact_text(name, W, H, rows)
     if text != exp:
@@ -991,7 +1014,7 @@ MAX_MS = (None, 1000)
 GOALS = (None, "lb")
 SEEDS = (1, 2)
 # per seed: last improvement FE / ms, total FEs / ms, which packing
-RUN = {1: (1, 0, 1, 0), 2: (17, 23, 99, 999)}
+RUN = {1: (1, 0, 1, 0), 2: (17, 23, 99, 999), 3: (5, 7, 99, 999)}
 _TAB = {}
 
 
@@ -1012,7 +1035,16 @@ def table_world():
         for i, t in enumerate(seq):
             poor[i, :] = [t, i + 1, 0, 0, inst[t - 1, 0], inst[t - 1, 1]]
         poor.n_bins = len(seq)
-        world[nm] = (inst, {1: good, 2: poor})
+        # the same layout with the bins numbered backwards: bin count and
+        # the "least filled bin" objectives are equal to `poor`, the "last
+        # bin" objectives differ (a statistics group of these two runs has
+        # a constant column next to a varying one)
+        rev = Packing(inst)
+        for i, t in enumerate(seq):
+            rev[i, :] = [t, len(seq) - i, 0, 0, inst[t - 1, 0],
+                         inst[t - 1, 1]]
+        rev.n_bins = len(seq)
+        world[nm] = (inst, {1: good, 2: poor, 3: rev})
     _TAB["world"] = world
     _TAB["cache"] = {}
     _TAB["recs"] = {}
@@ -1258,8 +1290,13 @@ def check_table(specs, what, bad: Bad, counters):
     path = tmp_file("tab")
     # ---- results
     if what in ("both", "results"):
-        with quiet():
-            PR.to_csv(recs, path)
+        try:
+            with quiet():
+                PR.to_csv(recs, path)
+        except Exception as e:  # noqa
+            bad.add("results_csv|to_csv raises",
+                    f"{desc}: {type(e).__name__}: {short(e, 200)}", rep)
+            return
         with open(path) as f:
             text = f.read()
         counters["results_tables"] += 1
@@ -1314,8 +1351,14 @@ def check_table(specs, what, bad: Bad, counters):
         counters["statistics_tables"] += 1
         counters["groups"] += len(stats)
         counters["group_sizes"].update(s.end_statistics.n for s in stats)
-        with quiet():
-            PS.to_csv(stats, path)
+        try:
+            with quiet():
+                PS.to_csv(stats, path)
+        except Exception as e:  # noqa
+            bad.add("statistics_csv|to_csv raises",
+                    f"{desc} -> {len(stats)} statistics record(s): "
+                    f"{type(e).__name__}: {short(e, 200)}", rep)
+            return
         with open(path) as f:
             text = f.read()
         counters["headers"].add(hash(data_lines(text)[0]))
@@ -1432,7 +1475,18 @@ def base_ib_specs():
     return [s for s in base_specs() if s["instance"] == "ib"]
 
 
-ALPHABETS = {"base": base_specs, "mixed": mixed_specs,
+def last_varies_specs():
+    """Runs whose 'last bin' objectives differ while the others agree."""
+    return [{"algorithm": a, "instance": i, "objective": o, "encoding": None,
+             "max_fes": None, "max_time_millis": None, "goal": g,
+             "seed": sd, "packing": sd}
+            for i in TABLE_INSTANCES for a in ("a1", "a2")
+            for o in ("binCount", "binCountAndLastSmall")
+            for g in (None, "lb") for sd in (2, 3)]
+
+
+ALPHABETS = {"lastvaries": last_varies_specs,
+             "base": base_specs, "mixed": mixed_specs,
              "objectives": seven_objective_specs, "base_ib": base_ib_specs,
              "floats": float_specs}
 
@@ -1493,7 +1547,8 @@ def part_tables(ctx: Ctx, found):
     plan = [("base", 1, "both"), ("base", 2, "both"), ("mixed", 1, "both"),
             ("mixed", 2, "both"), ("objectives", 1, "both"),
             ("objectives", 2, "both"), ("floats", 1, "both"),
-            ("floats", 2, "both")]
+            ("floats", 2, "both"), ("lastvaries", 1, "both"),
+            ("lastvaries", 2, "both")]
     if not ctx.quick:
         plan += [("mixed", 3, "both"), ("floats", 3, "both"),
                  ("base", 3, "results"),
